@@ -33,6 +33,22 @@ var (
 	c19ReConfig  = regexp.MustCompile(`^if \[\[ "\$\{1:-\}" == "(--[a-z]+)" \]\] ; then$`)
 )
 
+var c19ReIdxExp = regexp.MustCompile(`\$\{?BINDING_CONTEXT_CURRENT_INDEX(:?[-=]([^}]*))?\}?`)
+
+func c19Atoi(s string) int {
+	if s == "" {
+		return -1
+	}
+	n := 0
+	for _, ch := range s {
+		if ch < '0' || ch > '9' {
+			return -1
+		}
+		n = n*10 + int(ch-'0')
+	}
+	return n
+}
+
 const c19VerExpr = `$(context::jq -er '[.fromVersion,.toVersion]| map(sub("/";".")) | join("::")')`
 
 // c19Pattern splits the argument of an `echo` into segments: literals and the placeholders
@@ -298,6 +314,26 @@ func c19Facts(l *leanDefs) {
 	}
 	l.def("c19GlobalJqBody", "List String", leanStrList(bodies["context::global::jq"]), csrc+" context::global::jq")
 	l.def("c19CtxJqBody", "List String", leanStrList(bodies["context::jq"]), csrc+" context::jq")
+	// the expansion of the index variable inside context::jq: a plain ${VAR} (unset → the call dies
+	// under `set -u`) or a ${VAR:-d} / ${VAR-d} default (unset → context d)
+	idxDefault := "none"
+	idxExpansions := 0
+	for _, t := range bodies["context::jq"] {
+		for _, m := range c19ReIdxExp.FindAllStringSubmatch(t, -1) {
+			idxExpansions++
+			if m[1] != "" {
+				if n := c19Atoi(m[2]); n >= 0 {
+					idxDefault = fmt.Sprintf("some %d", n)
+				} else {
+					stale = true // a default that is not a number: the reader does not know what it selects
+				}
+			}
+		}
+	}
+	if idxExpansions != 1 {
+		stale = true
+	}
+	l.def("c19CtxIndexDefault", "Option Nat", idxDefault, csrc+" context::jq (default of the index expansion, none = plain ${BINDING_CONTEXT_CURRENT_INDEX})")
 	l.def("c19NoGlob", "Bool", fmt.Sprintf("%v", noGlob), src+" hook::_get_possible_handler_names (set -f)")
 	l.def("c19Stale", "Bool", fmt.Sprintf("%v", stale), src)
 }
